@@ -213,6 +213,13 @@ class Canon:
             return self.c(e.args[0]) + '.' + e.name
         if k == 'call':
             ln = last(e.name)
+            # unwrap(Some(x)) == x ; Option::as_ref is a view
+            if ln in ('unwrap', 'expect') and e.args:
+                a0 = strip(e.args[0])
+                while a0.k == 'call' and last(a0.name) in ('as_ref', 'as_mut', 'clone') and a0.args:
+                    a0 = strip(a0.args[0])
+                if a0.k == 'aggr' and a0.name in ('Option::Some', 'Result::Ok') and a0.args:
+                    return self.c(a0.args[0])
             if ln in self.SAMPLERS:
                 key = e.site
                 if key not in self.rand:
@@ -240,6 +247,10 @@ class Canon:
                     return '%s(%s)' % (ax.upper(), r[len(pre):-3])
             return r
         if k == 'aggr':
+            if e.name == 'array' and e.args:
+                v = const_int(e)
+                if v is not None:
+                    return 'arr:%s' % hex(v)
             return '%s{%s}' % (e.name, ', '.join(self.c(a) for a in e.args))
         if k in ('binop', 'unop'):
             return '%s(%s)' % (e.name, ', '.join(self.c(a) for a in e.args))
